@@ -126,6 +126,20 @@ func TestC16(t *testing.T) {
 			}
 		}
 	}
+	// catch-up after downtime on a chain denser than the block time: the store head lies between the estimate
+	// (head - window/blockTime) and the true window start (head - window/spacing), the old tail far behind
+	for _, ch := range []struct {
+		kind string
+		s    time.Duration
+	}{{"dense", c16Spacing / 2}, {"dense6", c16Spacing / 6}} {
+		for _, w := range []time.Duration{5 * time.Minute, 10 * time.Minute, 15 * time.Minute} {
+			lo, hi := int(w/c16Spacing), int(w/ch.s)
+			for _, lag := range []int{lo + 1, lo + (hi-lo)/3, (lo + hi) / 2, hi - 1} {
+				storeHi := 5 + hi + 50
+				mon.Emit(r, "tail", c16P{Chain: ch.kind, StoreLo: 5, StoreHi: storeHi, Net: storeHi + lag, AgeS: 0, Gossip: 1, Cfgs: []c16Cfg{{WindowNs: int64(w), BTNs: int64(c16Spacing), TPNs: tps[1]}}}, "tail")
+			}
+		}
+	}
 	for i := 0; i < r.N(350, 20000); i++ {
 		p := c16P{Chain: chains[rng.Intn(len(chains))], Gossip: rng.Intn(3)}
 		if rng.Intn(5) != 0 {
